@@ -62,6 +62,13 @@ CHECKS = {
          "(validated by TLC against the reference codec), feeds every deviant byte string to NewTransaction/DecodeStrict, and checks ID stability through store/load.",
          "Values of the generated types are sampled (seeded) apart from the exhaustive short-string / deviant / Lisk32-corruption spaces; Unicode NFC tables and SHA-256 trusted; unexported codec types unreachable.",
          "TLA+ reference codec checked by TLC + trace validation of the real codec + TLC-generated deviant encodings", "DESIGN.md section 4 C08"),
+ "C13": ("fault_enumeration",
+         "Crash.tla models a step as prepare / durable writes / cache update with a crash between any two sub-steps: TLC shows AtomicRecovery for the one-batch shape and a counterexample for a shape with a separate write (control). "
+         "On the real node every file-system write/sync operation index of the last step (apply a block / delete the tip, with and without temp block; blocks with transactions, validator change, aggregate commit, finality advance) "
+         "of TLC-generated Node scripts is used as a crash point on pebble's strict in-memory file system (unsynced data lost); the database is reopened, the node restarted, and the record (durable effects per key space, recovery invariants: "
+         "height index -> data, consensus store height = tip, diff iff block, finalized <= tip) is validated by CrashTrace.tla.",
+         "pebble batch atomicity and StrictMem's model of sync are trusted (torn WAL records not modelled); the toy application's state is rebuilt from headers at restart.",
+         "crash-point enumeration on the real node over a strict in-memory file system, records validated by a TLA+ trace monitor", "DESIGN.md section 4 C13"),
 }
 NA_REASON = "check not built yet in this round (planned, see DESIGN.md section 4); not claimed until its TLA+ specification and binding exist"
 
